@@ -46,6 +46,14 @@ CARRIES_POSITIONS = {"vasp"}
 STRUCTURE_ROUNDTRIP = ["vasp", "abinit", "qe", "elk", "siesta", "dftbp", "turbomole", "aims", "castep", "abacus", "lammps", "pwmat", "fleur", "wien2k"]
 
 
+# documented force-constant unit label per calculator and the value of each label in eV/angstrom^2 (simulator's own table)
+FC_LABEL = {"vasp": "eV/angstrom^2", "wien2k": "mRy/au^2", "abinit": "eV/angstrom.au", "elk": "hartree/au^2", "qe": "Ry/au^2", "siesta": "eV/angstrom.au",
+            "crystal": "eV/angstrom^2", "dftbp": "hartree/au^2", "turbomole": "hartree/au^2", "cp2k": "hartree/angstrom.au", "aims": "eV/angstrom^2",
+            "castep": "eV/angstrom^2", "fleur": "hartree/au^2", "abacus": "eV/angstrom.au", "lammps": "eV/angstrom^2", "pwmat": "eV/angstrom^2"}
+LABEL_VALUE = {"eV/angstrom^2": 1.0, "eV/angstrom.au": 1.0 / BOHR, "Ry/au^2": RYDBERG / BOHR**2, "mRy/au^2": 1e-3 * RYDBERG / BOHR**2,
+               "hartree/au^2": HARTREE / BOHR**2, "hartree/angstrom.au": HARTREE / BOHR}
+
+
 def fc_unit(calc):
     """eV/angstrom^2 per one unit of the calculator's force-constant unit."""
     L, F = UNITS[calc]
@@ -184,7 +192,7 @@ def harmonic_forces_for_file(read_cell, ideal_cell_model, fc_model, length_unit)
     return (Fm @ Rt)[perm], perm
 
 
-def write_force_output(calc, filename, read_cell, forces_eVA, energy=-10.0):
+def write_force_output(calc, filename, read_cell, forces_eVA, energy=-10.0, later_steps=None):
     """Write a calculator output file carrying `forces_eVA` (file atom order) in the calculator's format and native unit."""
     F = np.array(forces_eVA) / OUTPUT_FORCE_UNIT[calc]
     n = len(F)
@@ -206,7 +214,20 @@ def write_force_output(calc, filename, read_cell, forces_eVA, energy=-10.0):
             w.write('   </varray>\n  </structure>\n  <varray name="forces" >\n')
             for v in F:
                 w.write("   <v> %18.12f %18.12f %18.12f </v>\n" % tuple(v))
-            w.write('  </varray>\n  <energy>\n   <i name="e_fr_energy"> %.8f </i>\n   <i name="e_wo_entrp"> %.8f </i>\n   <i name="e_0_energy"> %.8f </i>\n  </energy>\n </calculation>\n</modeling>\n' % (energy, energy, energy))
+            w.write('  </varray>\n  <energy>\n   <i name="e_fr_energy"> %.8f </i>\n   <i name="e_wo_entrp"> %.8f </i>\n   <i name="e_0_energy"> %.8f </i>\n  </energy>\n </calculation>\n' % (energy, energy, energy))
+            # further ionic steps (a relaxation run): each with its own positions and forces
+            for pos2, F2 in (later_steps or []):
+                w.write(' <calculation>\n  <scstep>\n   <energy>\n    <i name="e_fr_energy"> %.8f </i>\n   </energy>\n  </scstep>\n  <structure>\n   <crystal>\n    <varray name="basis" >\n' % energy)
+                for v in read_cell.cell:
+                    w.write("     <v> %18.12f %18.12f %18.12f </v>\n" % tuple(v))
+                w.write('    </varray>\n   </crystal>\n   <varray name="positions" >\n')
+                for v in pos2:
+                    w.write("    <v> %18.14f %18.14f %18.14f </v>\n" % tuple(v))
+                w.write('   </varray>\n  </structure>\n  <varray name="forces" >\n')
+                for v in np.array(F2) / OUTPUT_FORCE_UNIT[calc]:
+                    w.write("   <v> %18.12f %18.12f %18.12f </v>\n" % tuple(v))
+                w.write('  </varray>\n  <energy>\n   <i name="e_fr_energy"> %.8f </i>\n   <i name="e_wo_entrp"> %.8f </i>\n   <i name="e_0_energy"> %.8f </i>\n  </energy>\n </calculation>\n' % (energy, energy, energy))
+            w.write("</modeling>\n")
         return
     if calc == "turbomole":
         os.makedirs(filename, exist_ok=True)
